@@ -88,6 +88,12 @@ def button_shape(shape: str) -> dict:
         body = _btn_read(2) + _btn_read(0) + _btn_read(1)
         meta["k"] = 1
         meta["buttons"] = [{"i": 0, "pin": 5, "decl": "setup"}, {"i": 1, "pin": 6, "decl": "setup"}, {"i": 2, "pin": 9, "decl": "setup"}]
+    elif shape == "shared":      # three buttons, ONE on_click handler for all of them
+        pre = "def h0():\n" + _ind(['mon.write("cs")'])
+        decl = "b0 = Button(5, on_click=h0)\nb1 = Button(6, on_click=h0)\nb2 = Button(9, on_click=h0)\n"
+        body = ['mon.write("tick")']
+        meta["k"] = 0
+        meta["buttons"] = [{"i": 0, "pin": 5, "decl": "setup"}, {"i": 1, "pin": 6, "decl": "setup"}, {"i": 2, "pin": 9, "decl": "setup"}]
     elif shape == "readme":      # README style: no main loop, is_pressed() evaluated in setup(); the loop only polls
         meta["k"] = 0
         meta["src"] = HEADER + pre + decl + "if b0.is_pressed():\n" + _ind(['mon.write("T0")']) + "else:\n" + _ind(['mon.write("F0")']) \
@@ -295,6 +301,8 @@ def with_clock(events: list, inputs: str) -> list:
     """Annotate every raw event with the millisecond clock AFTER it (the mock core's virtual clock: start value,
     per-pass increments, delay(), pulseIn()).  Every millis() read in the log must agree - else the machinery is off."""
     t0, xs = _inputs_clock(inputs)
+    # a negative start value means "that many ms before the unsigned long clock rolls over": the readings of millis()
+    # are compared modulo 2^64 (the width of unsigned long on the host), the projected clock stays a small signed number
     clock, out = t0, []
     for e in events:
         k = e.get("e")
@@ -305,7 +313,7 @@ def with_clock(events: list, inputs: str) -> list:
             clock += e["ms"]
         elif k == "pulse":
             clock += (e["r"] if e["r"] > 0 else e["to"]) // 1000
-        elif k == "ms" and e["r"] != clock:
+        elif k == "ms" and (e["r"] - clock) % (1 << 64) != 0:
             raise MachineryError(f"virtual clock mismatch: millis() returned {e['r']}, projection computed {clock}")
         out.append((e, clock))
     return out
@@ -338,6 +346,57 @@ def project_button(events: list, i: int, pin: int, hc: int = -1) -> list:
                 if val != -1:
                     j += 1
         j += 1
+    return out
+
+
+def project_shared(events: list, pins: list) -> list:
+    """Events of tla/ButtonShared.tla: per phase the samples of every button (last one taken), how many were taken, and how
+    often the shared handler (prints "cs") ran."""
+    out, cur = [], None
+
+    def close():
+        if cur is None:
+            return
+        if cur["k"] == "setup":
+            out.append({"k": "setup", "s": [cur["last"].get(p, 0) for p in pins], "n": [cur["cnt"].get(p, 0) for p in pins], "c": cur["c"]})
+        else:
+            out.append({"k": "pass", "s": [cur["last"].get(p, 0) for p in pins], "n": [cur["cnt"].get(p, 0) for p in pins], "c": cur["c"]})
+
+    for e in events:
+        if e.get("e") == "phase":
+            close()
+            cur = None if e["v"] == "end" else {"k": "setup" if e["v"] == "setup" else "pass", "last": {}, "cnt": {}, "c": 0}
+        elif cur is not None and e.get("e") == "dr" and e.get("p") in pins:
+            cur["last"][e["p"]] = e["r"]
+            cur["cnt"][e["p"]] = cur["cnt"].get(e["p"], 0) + 1
+        elif cur is not None and _is_str(e) and e["v"] == "cs":
+            cur["c"] += 1
+    close()
+    return out
+
+
+def host_shared(sigs: list) -> list:
+    """The same events from the host Button class: one shared callback, every button driven with its signal
+    (first element = state at construction time)."""
+    from Reduino.Sensors import Button
+    clicks = [0]
+
+    def cb():
+        clicks[0] += 1
+
+    cur = [s[0] for s in sigs]
+    btns = [Button(5 + i, on_click=cb, state_provider=(lambda i=i: cur[i])) for i in range(len(sigs))]
+    for b in btns:
+        b.is_pressed()                  # the sample of setup()
+    out = [{"k": "setup", "s": list(cur), "n": [1] * len(sigs), "c": 0}]
+    clicks[0] = 0
+    for t in range(1, len(sigs[0])):
+        before = clicks[0]
+        for i in range(len(sigs)):
+            cur[i] = sigs[i][t]
+        for b in btns:
+            b.is_pressed()
+        out.append({"k": "pass", "s": list(cur), "n": [1] * len(sigs), "c": clicks[0] - before})
     return out
 
 
@@ -389,10 +448,16 @@ def project_pot(events: list, i: int, feed_pins=()) -> list:
     return out
 
 
+ROLLOVER_T0 = 1000
+
+
 def project_us(events: list, inputs: str, i: int, trig: int, echo: int) -> list:
     """Abstract Ultrasonic events of sensor i (trig/echo pins) from a firmware log."""
     out, high, hi_us, t_hi, open_call = [], False, 0, 0, False
+    t0, _xs = _inputs_clock(inputs)
+    shift = ROLLOVER_T0 - t0 if t0 < 0 else 0          # roll-over runs are reported on the time axis of a run that starts at ROLLOVER_T0
     for e, clock in with_clock(events, inputs):
+        clock += shift
         k = e.get("e")
         if _is_str(e, "#u"):
             open_call = e["v"] == f"#u{i}"
